@@ -348,6 +348,21 @@ def project(res, sv):
 
 
 # -------------------------------------------------------------------- edits
+def resolve_obs(sv, idx):
+    """index (1-based) into sv.obs; 99 = the observation written last into the document"""
+    if idx != 99:
+        return idx
+    polar = ("direction", "distance", "angle", "s-distance", "z-angle", "azimuth")
+    stations = []
+    for o in sv.obs:
+        if o["t"] in polar and o["fr"] not in stations:
+            stations.append(o["fr"])
+    order = [i for st in stations for i, o in enumerate(sv.obs) if o["t"] in polar and o["fr"] == st]
+    for t in ("dh", "vector", "coords"):
+        order += [i for i, o in enumerate(sv.obs) if o["t"] == t]
+    return order[-1] + 1
+
+
 def apply_edit(sv, e):
     """returns new survey (a copy) ; the law is interpreted by check_law"""
     s = copy.deepcopy(sv)
@@ -408,7 +423,7 @@ def apply_edit(sv, e):
             s.obs.append(dict(t="dh", fr=a["id"], to="X", to2="", k=len(s.obs), fdh=0.0, tdh=0.0, swap=False, passive=False))
     elif k == "Blunder":
         s.params["tol-abs"] = float(e["tol"])
-        o = s.obs[e["obs"] - 1]
+        o = s.obs[resolve_obs(sv, e["obs"]) - 1]
         m = e["tol"] * e["pct"] / 100.0                       # positional misclosure in mm
         if o["t"] in ("distance", "s-distance", "dh"):
             o["blunder"] = m
@@ -421,7 +436,7 @@ def apply_edit(sv, e):
             o["blunder"] = m / (d * 1000.0) / G2R * 1e4          # cc
     elif k == "DeleteObs":
         s.params["tol-abs"] = float(e["tol"])
-        del s.obs[e["obs"] - 1]
+        del s.obs[resolve_obs(sv, e["obs"]) - 1]
     elif k == "AddConsistentObs":
         have = set((o["t"], o["fr"], o["to"], o["to2"]) for o in s.obs)
         extra = [o for o in s.allopt if (o["t"], o["from"], o["to"], o["to2"]) not in have][:e["s"]]
